@@ -16,7 +16,7 @@ ASSUMPTIONS = ["the merge parent is obtained the documented way: by calling the 
                "values are compared by type-aware deep equality"]
 COMPONENTS = {"real": ["partition codecs, PicklePartition, InMemoryPartition, OnDiskPartition, storage backend, memory cache", "tmpfs", "fork lifetimes"],
               "stub": ["scripted partition contents (through the builtins side channel)", "uuid4, clock"]}
-REACH = ["merged_calls", "parent_fresh", "parent_from_cache", "parent_from_disk", "ondisk_levels", "after_restart_served", "chains_len3plus"]
+REACH = ["passed_through_calls", "merged_calls", "parent_fresh", "parent_from_cache", "parent_from_disk", "ondisk_levels", "after_restart_served", "chains_len3plus"]
 
 LEVELS = 5
 KEYS = ["a", "b", "c", "d", "e", "f"]
@@ -32,7 +32,12 @@ PROGRAM = "import twosigma.memento as m\n" + "".join('''
 def p%d(x):
     __vtrace__("p%d", x)
     return __vpart__(%d, x, %s)
-''' % (i, i, i, "p%d(x)" % (i - 1) if i > 0 else "None") for i in range(LEVELS))
+
+@m.memento_function
+def q%d(x):
+    __vtrace__("q%d", x)
+    return p%d(x)          # hands on, unchanged, the partition another function returned
+''' % (i, i, i, "p%d(x)" % (i - 1) if i > 0 else "None", i, i, i) for i in range(LEVELS))
 
 
 def gen_case(seed):
@@ -44,11 +49,15 @@ def gen_case(seed):
         for k in rng.sample(KEYS, rng.randrange(0, 5)):
             own[k] = [rng.choice(VKINDS), rng.randrange(1000)]
         levels.append({"type": rng.choice(["inmemory", "inmemory", "ondisk"]), "own": own,
-                       "merge": i > 0 and rng.random() < 0.85})
+                       "merge": i > 0 and rng.random() < 0.85,
+                       # the mapping an in-memory partition is built from (the documentation's own example uses a defaultdict)
+                       "mapping": rng.choice(["dict", "dict", "defaultdict", "ordered", "chainmap"])})
     ops = []
     for _ in range(rng.randrange(2, 12)):
         r = rng.random()
-        if r < 0.7:
+        if r < 0.12:
+            ops.append(["pass", rng.randrange(depth), rng.randrange(2)])
+        elif r < 0.7:
             ops.append(["call", rng.randrange(depth), rng.randrange(2)])
         elif r < 0.85:
             ops.append(["restart"])
@@ -106,7 +115,19 @@ def _segment(root, case, ops, first_index):
                 for k in sorted(lv["own"]):
                     p[k] = mkval(lv["own"][k], x)
             else:
-                p = InMemoryPartition({k: mkval(lv["own"][k], x) for k in sorted(lv["own"])})
+                import collections
+                d = {k: mkval(lv["own"][k], x) for k in sorted(lv["own"])}
+                mp = lv.get("mapping", "dict")
+                if mp == "defaultdict":
+                    dd = collections.defaultdict(list)
+                    dd.update(d)
+                    d = dd
+                    side.events.append(["mapping", level, "defaultdict"])
+                elif mp == "ordered":
+                    d = collections.OrderedDict(d)
+                elif mp == "chainmap":
+                    d = collections.ChainMap(d)
+                p = InMemoryPartition(d)
             if parent is not None and lv["merge"]:
                 p._merge_parent = parent
                 side.events.append(["parent", level, type(parent).__name__])
@@ -120,8 +141,8 @@ def _segment(root, case, ops, first_index):
                     mc = getattr(storage, "_memory_cache", None)
                     if mc is not None:
                         mc.forget_everything()
-                elif op[0] == "call":
-                    fn = getattr(mod, "p%d" % op[1])
+                elif op[0] in ("call", "pass"):
+                    fn = getattr(mod, ("p%d" if op[0] == "call" else "q%d") % op[1])
                     side.take()
                     r = fn(op[2])
                     tr = side.take()
@@ -198,7 +219,7 @@ def execute(case):
             for rec in ev:
                 op = rec["op"]
                 log.append([rec["i"], op, rec.get("runs"), rec.get("chk", {}).get("keys")])
-                lv = case["levels"][op[1]] if op[0] == "call" else None
+                lv = case["levels"][op[1]] if op[0] in ("call", "pass") else None
                 feats = {}
                 if lv is not None:
                     feats = {"level_type": lv["type"], "merged": bool(op[1] > 0 and lv["merge"]),
@@ -209,9 +230,13 @@ def execute(case):
                 if op[0] == "flush":
                     this_life = set()
                     continue
-                if op[0] != "call":
+                if op[0] not in ("call", "pass"):
                     continue
-                key = (op[1], op[2])
+                passed = op[0] == "pass"
+                if passed:
+                    feats["passed_through"] = True
+                    bump("passed_through_calls")
+                key = (op[1] + (100 if passed else 0), op[2])
                 chk = rec["chk"]
                 exp = expected(case, op[1], op[2])
                 if feats["merged"]:
@@ -243,7 +268,7 @@ def execute(case):
                 if chk["keys"] != sorted(exp):
                     viol.append(core.violation("key-set-differs", feats, {"rec": rec, "expected": sorted(exp)}))
                     break
-                if chk["own_keys"] != sorted(lv["own"]):
+                if not passed and chk["own_keys"] != sorted(lv["own"]):
                     viol.append(core.violation("own-key-set-differs", feats, {"rec": rec, "expected": sorted(lv["own"])}))
                     break
                 if chk["bad_values"]:
@@ -259,7 +284,7 @@ def execute(case):
                     break
                 stored.add(key)
                 this_life.add(key)
-                for lvl in range(op[1]):      # every body calls the level below: ancestors are stored too
+                for lvl in range(op[1] + (1 if passed else 0)):      # every body calls the level below: ancestors are stored too
                     stored.add((lvl, op[2]))
             if viol:
                 break
